@@ -37,6 +37,7 @@ def case_st(draw):
             m = draw(S.any_msg())
         msgs.append(m)
     # chunks: sizes of successive append_all() calls; size 1 chunks use append_msg
+    n = len(msgs)
     chunks = []
     left = n
     while left > 0:
@@ -102,15 +103,17 @@ def oracle(case):
 
         # full read, random access, all slices
         check_list(ddf.parse_all(), msgs, "parse_all()")
-        for idx in range(n + 2):
+        for idx in (range(n + 2) if n <= 8 else [0, 1, 127, 128, 254, 255, 256, 257, n - 1, n, n + 1]):
             r = ddf.parse_msg(idx)
             if idx < n:
                 if not same(r, msgs[idx]):
                     raise Violation("c15:parse_msg", "parse_msg(%d) != stored message %d" % (idx, idx))
             elif r is not None:
                 raise Violation("c15:parse_msg-beyond-end", "parse_msg(%d) of %d returned %r" % (idx, n, r))
-        for skip in [None] + list(range(n + 3)):
-            for count in [None] + list(range(1, n + 3)):
+        skips = [None] + (list(range(n + 3)) if n <= 8 else [0, 1, 2, 254, 255, 256, 257, n - 1, n, n + 1])
+        counts = [None] + (list(range(1, n + 3)) if n <= 8 else [1, 2, 255, 256, 257, n - 1, n, n + 2])
+        for skip in skips:
+            for count in counts:
                 r = ddf.parse_all(skip=skip, count=count)
                 exp = msgs[(skip or 0):]
                 if count is not None:
@@ -130,7 +133,12 @@ def oracle(case):
     else:
         offsets = {0, L}
         start = 0
-        for e in ends:
+        # (with hundreds of records only the neighbourhood of a few records is cut: first, 255th..257th, last)
+        pick = set(range(len(ends))) if len(ends) <= 8 else {0, 1, 254, 255, 256, len(ends) - 2, len(ends) - 1}
+        for ri, e in enumerate(ends):
+            if ri not in pick:
+                start = e
+                continue
             offsets.update(range(max(0, start - 1), min(L, start + 13) + 1))
             offsets.update(range(max(0, e - 3), e + 1))
             body = e - start
@@ -192,4 +200,25 @@ def oracle(case):
              "file_len": L, "cuts_tried": len(offsets)})
 
 
-SUBS = [Sub("store_read_truncate", strategy=case_st(), oracle=oracle, examples={"quick": 400, "thorough": 12000})]
+def many_records(ctx, rec):
+    """files with hundreds of records (record counts / indices beyond 2^8): same oracle on a few deterministic files"""
+    from harness.core import Failure
+    fails = []
+    for n in ((257, 300) if ctx.tier == "quick" else (255, 256, 257, 300, 1000)):
+        base = [{"cls": "tx", "ver": 0, "fn": 10, "tn": 1, "pwr": 7, "bits": bytes(i & 1 for i in range(148))},
+                {"cls": "rx", "ver": 1, "fn": 20, "tn": 2, "rssi": -60, "toa256": 3, "ci": 5, "nope": True, "mod": "GMSK", "soft": None},
+                {"cls": "rx", "ver": 1, "fn": 30, "tn": 3, "rssi": -70, "toa256": -3, "ci": -5, "nope": False, "mod": "AQPSK", "tsc_set": 1, "tsc": 2,
+                 "soft": [((i * 3 + ctx.seed) % 255) - 127 for i in range(296)]}]
+        msgs = [dict(base[j % 3], fn=(base[j % 3]["fn"] + j) % 2715648) for j in range(n)]
+        case = {"msgs": msgs, "chunks": [100, 1, n - 101], "realfile": n == 257, "cuts": [5, 50, 100, 150, 200, 250]}
+        try:
+            cl, nt, _ = oracle(case)
+            rec.note({"n": n}, cl + ["many-records"], True, {"n_records": n})
+        except Violation as v:
+            fails.append(Failure("many_records", case, v.sig, v.msg))
+    return fails
+
+
+SUBS = [Sub("store_read_truncate", strategy=case_st(), oracle=oracle, examples={"quick": 400, "thorough": 12000}),
+        Sub("many_records", fn=many_records)]
+SUBS[1].replay = oracle
